@@ -46,12 +46,14 @@ Fixpoint advance (fuel : nat) (held : bool) (s : st) (ns : bool) (evs : list wev
       let p0 := wpc s in
       let '(s1, e) := wstep s ns in
       let evs1 := match e with WNoSpace _ => evs ++ [e] | _ => evs end in
-      let stop := if held then is_mutex_park (wpc s1)
-                  else match wpc s1 with
-                       | WIdle => negb (isSome (fst (pop (fblobs s1) (queue s1))))   (* really idle *)
-                       | p1 => is_park p1 || is_snap p0
-                       end in
-      if stop then (s1, evs1) else advance f held s1 ns evs1
+      if held then (if is_mutex_park (wpc s1) then (s1, evs1) else advance f held s1 ns evs1)
+      else match wpc s1 with
+           | WIdle =>
+               (* the real worker keeps calling nextToFlush until the queue is empty *)
+               if isSome (fst (pop (fblobs s1) (queue s1))) then advance f held s1 ns evs1
+               else (fst (wstep s1 ns), evs1)
+           | p1 => if is_park p1 || is_snap p0 then (s1, evs1) else advance f held s1 ns evs1
+           end
   end.
 
 Definition wev_eqb (a b : wev) : bool :=
